@@ -346,11 +346,71 @@ def run(case):
             vio.append({'mech': 'wrong-error-for-bottom', 'what': f'dangling / cyclic reference must surface as EvalError, build {lib.describe(got)}; texts={texts!r}'})
         else:
             feats.append('bottom_reported_as_EvalError')
+    if not vio and not case.get('deep'):
+        lv = _live_history(case, plan, feats)
+        if lv:
+            vio.append(lv)
     nt = len(refs) >= 2 and (maxhops >= 2 or expected_fail)
     res = {'status': 'violation' if vio else 'ok', 'nontrivial': nt, 'feats': sorted(set(feats)), 'sig': util.sig(texts)}
     if vio:
         res['violations'] = vio[:2]
     return res
+
+
+def _live_history(case, plan, feats):
+    """one live tree: built, evaluated in place, then a later source re-routes one or two references, built and evaluated again -
+    the outcome must be that of building all the sources afresh (nothing an evaluation leaves on the nodes may decide a later one)"""
+    from awesomeyaml.builder import Builder
+    from awesomeyaml.config import Config
+    from awesomeyaml.eval_context import EvalContext
+    from ..emit import M, SP
+    from .c16 import put
+    rng = random.Random(util.sig(case['texts']) + 'live')
+    if rng.random() > 0.4:
+        return None
+    refs = case['refs']
+    simple = [r for r in refs if r['loc'] and all(isinstance(c, str) and gen.path_str((c,)) == c for c in r['loc']) and not r['in_call']]
+    targets = sorted({r['target'] for r in refs if r['target']} | {T for _, T in plan if T})
+    if not simple or len(targets) < 2:
+        return None
+    patch = M([])
+    for r in rng.sample(simple, min(len(simple), rng.choice([1, 1, 2]))):
+        alt = [t for t in targets if t != r['target']]
+        if not put(patch, tuple(r['loc']), SP('xref', path=rng.choice(alt))):
+            return None
+    ptext = emit.emit(patch, 'flow')
+    texts = case['texts']
+
+    def live():
+        b = Builder()
+        for t in texts:
+            b.add_source(t, raw_yaml=True)
+        tree = b.build()
+        for _ in range(2):
+            try:
+                EvalContext().evaluate(tree)
+            except Exception:
+                pass
+        b.add_source(ptext, raw_yaml=True)
+        return Config(b.build())
+    a = lib.outcome(live)
+    f = lib.outcome(lambda: lib.build(texts + [ptext]))
+    feats.append('live_tree_rerouted_after_evaluation')
+
+    def pic(o):
+        from .c11 import _tag                  # (recorder results compared by the name of their target, not by their serial number)
+        return ('err', lib.err_kind(o[1])) if o[0] == 'err' else ('ok', util.typed(_plain(o[1]), other=_tag))
+    if pic(a) != pic(f):
+        return {'mech': 'live-tree-history-differs-from-fresh-build', 'what': f'sources {texts!r} built and evaluated in place, then {ptext!r} added and built again -> {lib.describe(a) if a[0] == "err" else util.short(_plain(a[1]), 300)}; all sources built afresh -> {lib.describe(f) if f[0] == "err" else util.short(_plain(f[1]), 300)}'}
+    return None
+
+
+def _plain(v):
+    if isinstance(v, dict):
+        return {k: _plain(x) for k, x in v.items()}
+    if isinstance(v, (list, tuple)):
+        return [_plain(x) for x in v]
+    return v
 
 
 def _dangling_terminals(case, plan):
